@@ -5,6 +5,7 @@ import (
 	"fmt"
 	"os"
 	"strconv"
+	"sync"
 	"time"
 
 	openfgav1 "github.com/openfga/api/proto/openfga/v1"
@@ -44,18 +45,30 @@ func main() {
 		graph.WithPlanner(&fgarun.ForcedPlanner{Want: "default"}), graph.WithOptimizations(true))).Build()
 	defer closer()
 	hist := map[int]int{}
-	for i := 0; i < n; i++ {
+	par, _ := strconv.Atoi(os.Args[4])
+	var mu sync.Mutex
+	var wg sync.WaitGroup
+	for p := 0; p < par; p++ {
+	wg.Add(1)
+	go func() {
+	defer wg.Done()
+	for i := 0; i < n/par; i++ {
 		q, _ := commands.NewListObjectsQuery(mem, resolver, fgarun.StoreID,
 			commands.WithListObjectsDeadline(20*time.Second), commands.WithListObjectsMaxResults(uint32(limit)),
 			commands.WithResolveNodeBreadthLimit(uint32(breadth)), commands.WithMaxConcurrentReads(30),
 			commands.WithListObjectsPipelineEnabled(false), commands.WithFeatureFlagClient(featureflags.NewDefaultClient(nil)))
 		ctx := typesystem.ContextWithTypesystem(context.Background(), ts)
 		res, err := q.Execute(ctx, &openfgav1.ListObjectsRequest{StoreId: fgarun.StoreID, AuthorizationModelId: fgarun.ModelID, Type: "doc", Relation: "viewer", User: "user:x"})
+		mu.Lock()
 		if err != nil {
 			hist[-1]++
-			continue
-		}
+		} else {
 		hist[len(res.Objects)]++
+		}
+		mu.Unlock()
 	}
+	}()
+	}
+	wg.Wait()
 	fmt.Println("limit", limit, "breadth", breadth, "histogram of |objects|:", hist)
 }
